@@ -18,7 +18,8 @@ from translate.py2coq import Kernel, Unsupported, find_function, src_of
 REPO = os.environ.get('VERIF_REPO', '/repo')
 CMP = {ast.Lt: '<?', ast.LtE: '<=?', ast.Gt: '>?', ast.GtE: '>=?', ast.Eq: '=?'}
 FILES = dict(ce='bionumpy/streams/chunk_entries.py', parser='bionumpy/io/parser.py', red='bionumpy/streams/reductions.py',
-             cg='bionumpy/computation_graph.py', gb='bionumpy/streams/groupby_func.py')
+             cg='bionumpy/computation_graph.py', gb='bionumpy/streams/groupby_func.py',
+             gt='bionumpy/genomic_data/genomic_track.py')
 
 
 def parse(rel):
@@ -473,6 +474,70 @@ def gb_defs(defs):
     emit(defs, 'gen_join_key_field', join)
 
 
+# ----------------------------------------------------------------------------- operand order of ufuncs; stranded windows
+def order_defs(defs):
+    def node_ufunc():
+        f = find_function(parse(FILES['cg']), 'Node.__array_ufunc__')
+        for n in ast.walk(f):
+            if isinstance(n, (ast.Assign, ast.AugAssign, ast.AnnAssign)):
+                targets = n.targets if isinstance(n, ast.Assign) else [n.target]
+                if any('args' == src_of(t) for t in targets):
+                    raise Unsupported('Node.__array_ufunc__ re-binds its operand list `args`')
+        r = only([n for n in ast.walk(f) if isinstance(n, ast.Return)], 'Node.__array_ufunc__: return')
+        c = r.value
+        if not (isinstance(c, ast.Call) and src_of(c.func) == 'ComputationNode' and len(c.args) >= 2
+                and src_of(c.args[0]) == 'ufunc' and src_of(c.args[1]) == 'args'):
+            raise Unsupported('Node.__array_ufunc__ does not return ComputationNode(ufunc, args, ...): %s' % src_of(c))
+        if f.args.vararg is None or f.args.vararg.arg != 'args':
+            raise Unsupported('Node.__array_ufunc__: operands are not *args')
+        return sdef('gen_ufunc_operand_order', 'as_written')
+    emit(defs, 'gen_ufunc_operand_order', node_ufunc)
+
+    def track_ufunc():
+        f = find_function(parse(FILES['gt']), 'GenomicArrayNode.__array_ufunc__')
+        v = only(assign_to(f.body, 'args'), 'GenomicArrayNode.__array_ufunc__: args = ...')
+        if not (isinstance(v, ast.ListComp) and len(v.generators) == 1 and src_of(v.generators[0].iter) == 'inputs'
+                and not v.generators[0].ifs and isinstance(v.elt, ast.IfExp)
+                and src_of(v.elt.body) == src_of(v.generators[0].target) + '._run_length_node'
+                and src_of(v.elt.orelse) == src_of(v.generators[0].target)):
+            raise Unsupported('GenomicArrayNode.__array_ufunc__: operands are %s' % src_of(v))
+        r = only([n for n in ast.walk(f) if isinstance(n, ast.Return)], 'return')
+        if 'ufunc(*args, **kwargs)' not in src_of(r.value):
+            raise Unsupported('GenomicArrayNode.__array_ufunc__ does not call ufunc(*args, **kwargs)')
+        return sdef('gen_track_ufunc_operand_order', 'as_written')
+    emit(defs, 'gen_track_ufunc_operand_order', track_ufunc)
+
+    def orientation(func, strand_src, name):
+        rets = [n for n in ast.walk(func) if isinstance(n, ast.Return)]
+        w = [r.value for r in rets if isinstance(r.value, ast.Call) and src_of(r.value.func) == 'np.where']
+        c = only(w, '%s: return np.where(...)' % name)
+        if len(c.args) != 3 or [src_of(a) for a in c.args[1:]] != ['rle', 'r']:
+            raise Unsupported('%s: np.where branches are %s' % (name, [src_of(a) for a in c.args[1:]]))
+        r_def = [src_of(n.value) for n in ast.walk(func) if isinstance(n, ast.Assign) and src_of(n.targets[0]) == 'r']
+        if r_def != ['rle[:, ::-1]']:
+            raise Unsupported('%s: r is %s' % (name, r_def))
+        cond = c.args[0]
+        if not (isinstance(cond, ast.Subscript) and src_of(cond.slice) == '(slice(None, None, None), np.newaxis)'
+                or src_of(cond).endswith('[:, np.newaxis]')):
+            raise Unsupported('%s: condition %s' % (name, src_of(cond)))
+        inner = cond.value
+        if not (isinstance(inner, ast.Compare) and len(inner.ops) == 1 and isinstance(inner.ops[0], ast.Eq)
+                and src_of(inner.left) == strand_src and isinstance(inner.comparators[0], ast.Constant)
+                and isinstance(inner.comparators[0].value, str)):
+            raise Unsupported('%s: condition %s' % (name, src_of(cond)))
+        return sdef(name, inner.comparators[0].value)          # rows with this strand stay forward, all others are reversed
+
+    def streamed():
+        f = find_function(parse(FILES['gt']), 'GenomicArrayNode.extract_intervals')
+        return orientation(find_function(f, 'stranded_func'), 'strand', 'gen_stranded_forward_symbol')
+    emit(defs, 'gen_stranded_forward_symbol', streamed)
+
+    def in_memory():
+        f = find_function(parse(FILES['gt']), 'GenomicArrayGlobal.extract_intervals')
+        return orientation(f, 'intervals.strand.ravel()', 'gen_stranded_forward_symbol_mem')
+    emit(defs, 'gen_stranded_forward_symbol_mem', in_memory)
+
+
 def gen():
     defs = ['From Coq Require Import Bool.\n']
     ce_defs(defs)
@@ -480,4 +545,5 @@ def gen():
     red_defs(defs)
     cg_defs(defs)
     gb_defs(defs)
-    return ', '.join(FILES[k] for k in ('ce', 'parser', 'red', 'cg', 'gb')), defs
+    order_defs(defs)
+    return ', '.join(FILES[k] for k in ('ce', 'parser', 'red', 'cg', 'gb', 'gt')), defs
